@@ -94,7 +94,7 @@ def bound_arg(call, func, pname):
     (None if default is used).  Handles positional and keyword passing for
     `self.m(...)` style calls."""
     params = list(func.params)
-    if func.cls is not None and params:
+    if func.cls is not None and params and "staticmethod" not in getattr(func, "decorators", []):
         params = params[1:]
     if pname in params:
         i = params.index(pname)
